@@ -195,7 +195,21 @@ class PEval:
         if isinstance(t, ast.Name):
             env[t.id] = v
         elif isinstance(t, (ast.Tuple, ast.List)):
+            if isinstance(v, Opaque):
+                raise PEvalUnsupported("unpacking of an opaque value")
             vs = list(v)
+            stars = [i for i, x in enumerate(t.elts) if isinstance(x, ast.Starred)]
+            if len(stars) == 1:
+                i = stars[0]
+                after = len(t.elts) - i - 1
+                if len(vs) < len(t.elts) - 1:
+                    raise Raised("ValueError", t)
+                for a, b in zip(t.elts[:i], vs[:i]):
+                    self.assign(a, b, env, fi, depth)
+                self.assign(t.elts[i].value, list(vs[i:len(vs) - after]), env, fi, depth)
+                for a, b in zip(t.elts[i + 1:], vs[len(vs) - after:] if after else []):
+                    self.assign(a, b, env, fi, depth)
+                return
             if len(vs) != len(t.elts):
                 raise Raised("ValueError", t)
             for a, b in zip(t.elts, vs):
@@ -365,33 +379,29 @@ class PEval:
             return "".join(parts)
         if isinstance(e, ast.Call):
             return self.eval_call(e, env, fi, depth)
-        if isinstance(e, (ast.ListComp, ast.GeneratorExp)) and len(e.generators) == 1:
-            g = e.generators[0]
-            it = self.eval(g.iter, env, fi, depth)
-            if isinstance(it, Opaque):
-                raise PEvalUnsupported("comprehension over opaque")
-            out = []
-            env2 = dict(env)
-            for x in list(it):
-                self.assign(g.target, x, env2, fi, depth)
-                if all(self.truth(self.eval(c, env2, fi, depth), c) for c in g.ifs):
-                    out.append(self.eval(e.elt, env2, fi, depth))
-            return out
-        if isinstance(e, (ast.DictComp, ast.SetComp)) and len(e.generators) == 1:
-            g = e.generators[0]
-            it = self.eval(g.iter, env, fi, depth)
-            if isinstance(it, Opaque):
-                raise PEvalUnsupported("comprehension over opaque")
-            env2 = dict(env)
-            outd, outs = {}, set()
-            for x in list(it):
-                self.assign(g.target, x, env2, fi, depth)
-                if all(self.truth(self.eval(c, env2, fi, depth), c) for c in g.ifs):
+        if isinstance(e, (ast.ListComp, ast.GeneratorExp, ast.DictComp, ast.SetComp)):
+            out, outd, outs = [], {}, set()
+
+            def gen(i, env2):
+                if i == len(e.generators):
                     if isinstance(e, ast.DictComp):
                         outd[self.eval(e.key, env2, fi, depth)] = self.eval(e.value, env2, fi, depth)
-                    else:
+                    elif isinstance(e, ast.SetComp):
                         outs.add(self.eval(e.elt, env2, fi, depth))
-            return outd if isinstance(e, ast.DictComp) else outs
+                    else:
+                        out.append(self.eval(e.elt, env2, fi, depth))
+                    return
+                g = e.generators[i]
+                it = self.eval(g.iter, env2, fi, depth)
+                if isinstance(it, Opaque):
+                    raise PEvalUnsupported("comprehension over opaque")
+                for x in list(it):
+                    env3 = dict(env2)
+                    self.assign(g.target, x, env3, fi, depth)
+                    if all(self.truth(self.eval(c, env3, fi, depth), c) for c in g.ifs):
+                        gen(i + 1, env3)
+            gen(0, dict(env))
+            return outd if isinstance(e, ast.DictComp) else outs if isinstance(e, ast.SetComp) else out
         raise PEvalUnsupported(f"expression {type(e).__name__}: {norm(e)}")
 
     @staticmethod
